@@ -125,6 +125,7 @@ type stats struct {
 	FuzzExecs   int64             `json:"fuzz_execs"`
 	hashes      map[uint64]struct{}
 	sampleBySub map[string]int
+	anyCase     json.RawMessage // used as a sample when nothing else qualified
 }
 
 var st = &stats{
@@ -164,6 +165,14 @@ func (s *stats) count(pid, sub string, caseJSON []byte, v Verdict) {
 	for _, c := range v.Classes {
 		s.Classes[c]++
 	}
+	if s.anyCase == nil && len(caseJSON) < 6000 {
+		s.anyCase, _ = json.Marshal(map[string]json.RawMessage{"sub": mustJSON(sub), "case": caseJSON})
+	}
+	if v.Fail != "" && s.sampleBySub[sub+"/violating"] < samplesPerSub && len(caseJSON) < 6000 {
+		s.sampleBySub[sub+"/violating"]++
+		smp, _ := json.Marshal(map[string]json.RawMessage{"sub": mustJSON(sub), "violating": mustJSON(true), "case": caseJSON})
+		s.Samples = append(s.Samples, smp)
+	}
 	if v.NonTrivial {
 		s.Classes["nontrivial"]++
 		h := hashJSON(sub, caseJSON)
@@ -193,6 +202,9 @@ func (s *stats) flush() {
 	}
 	s.mu.Lock()
 	defer s.mu.Unlock()
+	if len(s.Samples) == 0 && s.anyCase != nil {
+		s.Samples = append(s.Samples, s.anyCase)
+	}
 	b, _ := json.Marshal(s)
 	os.WriteFile(path, b, 0o644)
 	hb := make([]byte, 0, 8*len(s.hashes))
